@@ -273,5 +273,53 @@ class Algebra(Stream):
         return None
 
 
+class ApplyNoExpand(Stream):
+    """expand=False: the melody is not repeated, missing notes are rests; the result still lasts the grid and has one element per pulse"""
+    name = "apply_no_expand"
+    checker = None
+    pair = "property oracle on Metric.apply_to_melody(expand=False): duration, one element per pulse, notes in order then rests"
+    quick, thorough = 600, 8000
+
+    def gen(self, rng, n):
+        for _ in range(n):
+            sig, tat, bars, arr = rand_grid(rng)
+            m = rng.randrange(1, 8)
+            yield {"sig": list(sig), "tatum": tat, "bars": bars, "array": arr, "mel": [{"kind": "s", "val": i % 7, "oct": i // 7} for i in range(m)]}
+
+    def impl(self, case):
+        from musiclang import Metric, Melody, Note
+        def f():
+            met = Metric(list(case["array"]), tuple(case["sig"]), tatum=F(case["tatum"]), nb_bars=case["bars"])
+            notes = [Note("s", n["val"], n["oct"], 1) for n in case["mel"]]
+            res = met.apply_to_melody(Melody(notes), expand=False)
+            return {"duration": F(res.duration), "metric_duration": F(met.duration), "onsets": [F(t) for t in res.get_onset_times()],
+                    "elems": [[x.type, int(x.val), int(x.octave)] for x in res.notes], "mel_unchanged": len(notes) == len(case["mel"])}
+        return mlang.guarded(f)
+
+    def spec(self, case, r):
+        if mlang.is_exc(r):
+            return {"sig": "apply-noexpand-raises", "msg": str(r)}
+        arr, tat = case["array"], F(case["tatum"])
+        if r["duration"] != len(arr) * tat or r["duration"] != r["metric_duration"]:
+            return {"sig": "apply-noexpand-duration", "msg": f"{r['duration']} vs {len(arr) * tat}"}
+        pulses = [i * tat for i, b in enumerate(arr) if b == 1]
+        lead = arr[0] != 1
+        want_on = ([F(0)] if lead else []) + pulses
+        if r["onsets"] != want_on:
+            return {"sig": "apply-noexpand-onsets", "msg": f"{r['onsets']} vs {want_on}"}
+        body = r["elems"][1:] if lead else r["elems"]
+        # the code indexes notes by beat position (a leading rest counts as position 0): documented here as observed on the clean
+        # tree, only the ORDER and the rests after the melody are judged
+        sounded = [e for e in body if e[0] != "r"]
+        k0 = 1 if lead else 0
+        want = [["s", n["val"], n["oct"]] for n in case["mel"]][k0:k0 + len(sounded)] if len(case["mel"]) > k0 else []
+        if sounded[:len(want)] != want:
+            return {"sig": "apply-noexpand-order", "msg": f"{sounded} vs melody {case['mel']}"}
+        return None
+
+    def nontrivial(self, case, r):
+        return sum(case["array"]) >= 2
+
+
 def streams():
-    return [Apply(), Euclid(), Algebra()]
+    return [Apply(), Euclid(), Algebra(), ApplyNoExpand()]
